@@ -44,6 +44,8 @@ type Contract struct {
 	External bool // from /verif/stubs: assumed contract of code outside the repository
 	GhostParams [][2]string // arbitrary-but-fixed ghost parameters (name, sort): proved for a fresh constant, assumed universally
 	GhostSets   []*Clause   // ghost assignments performed when the function returns: "name = expr"
+	CallSpecs   map[string][]*Clause // function-typed parameter -> clauses (over p0,p1,..) guaranteed at each call of it
+	SweepKinds  map[string]map[string]bool // property tag -> sweep obligation kinds it claims (absent: all kinds)
 }
 
 type GhostFunc struct {
@@ -201,6 +203,22 @@ func (S *Specs) loadFile(path, pkg string, goFile bool) error {
 					cur.Flags[w] = "1"
 				}
 			}
+		case "callspec":
+			// callspec <param> requires[tags] <expr over p0, p1, ...>
+			if cur == nil || len(words) < 4 {
+				return fmt.Errorf("%s: callspec <param> requires <expr>", src)
+			}
+			k2, tags2 := splitTags(words[2])
+			if k2 != "requires" {
+				return fmt.Errorf("%s: callspec supports only requires", src)
+			}
+			text := strings.TrimSpace(strings.SplitN(trim, words[2], 2)[1])
+			if cur.CallSpecs == nil {
+				cur.CallSpecs = map[string][]*Clause{}
+			}
+			cl := &Clause{Kind: "callspec", Tags: tags2, Text: text, Src: src}
+			cur.CallSpecs[words[1]] = append(cur.CallSpecs[words[1]], cl)
+			last, lastAxiom = cl, nil
 		case "ghostset":
 			if cur == nil {
 				return fmt.Errorf("%s: ghostset outside func", src)
@@ -327,6 +345,19 @@ func (S *Specs) loadFile(path, pkg string, goFile bool) error {
 			}
 			cur.Sweep = append(cur.Sweep, tags...)
 			cur.Flags["sweep"] = "1"
+			if len(words) > 1 {
+				if cur.SweepKinds == nil {
+					cur.SweepKinds = map[string]map[string]bool{}
+				}
+				for _, t := range tags {
+					if cur.SweepKinds[t] == nil {
+						cur.SweepKinds[t] = map[string]bool{}
+					}
+					for _, k := range words[1:] {
+						cur.SweepKinds[t][k] = true
+					}
+				}
+			}
 		case "flag", "nowrap", "inline", "pure", "noinline", "maypanic", "params", "trusted", "total", "alloc", "bounded", "modifies", "axioms", "depth", "exact", "logged":
 			if cur == nil {
 				return fmt.Errorf("%s: flag outside func", src)
